@@ -21,6 +21,7 @@ static void logf_(const char* fmt, ...) { va_list ap; va_start(ap, fmt); if (log
 static void hexs(char* out, const uint8_t* b, int n) { if (!n) { strcpy(out, "-"); return; } for (int i = 0; i < n; i++) sprintf(out + 2 * i, "%02x", b[i]); }
 
 static CS104_Slave slave = NULL;
+static int order_fail = 0; static char order_info[900]; static long n_replies_tracked = 0;
 static int replies = 0;
 static int hid_of_sock[SIM_MAX_SOCKETS]; static SimSocket* sock_of_hid[4096]; static int n_hid = 0;
 static int answers[64]; static int n_answers = 0, answers_pos = 0;
@@ -31,7 +32,6 @@ static int hid_of(MasterConnection c) { return (c && c->socket) ? hid_of_sock[((
 /* ---- C13 order oracle (model-free): replies accepted by sendASDU must appear on the wire in issue order ---- */
 #define MAXEXP 256
 static uint8_t exp_b[64][MAXEXP][256]; static int exp_n[64][MAXEXP]; static int exp_cnt[64];
-static int order_fail = 0; static char order_info[900]; static long n_replies_tracked = 0;
 static void exp_clear(int hid) { if (hid >= 0 && hid < 64) exp_cnt[hid] = 0; }
 static void exp_push(int hid, const uint8_t* b, int n) { if (hid < 0 || hid >= 64 || exp_cnt[hid] >= MAXEXP || n > 256) return; memcpy(exp_b[hid][exp_cnt[hid]], b, n); exp_n[hid][exp_cnt[hid]++] = n; n_replies_tracked++; }
 static void exp_seen(int hid, const uint8_t* b, int n)
@@ -47,13 +47,14 @@ static void exp_seen(int hid, const uint8_t* b, int n)
         return;
     }
 }
+static void evq_seen(int hid, const uint8_t* b, int n);
 /* ---- C03 wire oracle (model-free): every write is one well-formed APDU; N(S) of successive I-frames counts up mod 32768 ---- */
 static int wire_fail = 0; static char wire_info[700]; static int next_ns[4096]; static long n_iframes_tx = 0;
 static void wire_check(int hid, const uint8_t* b, int n)
 {
     const char* why = NULL;
     if (n < 6 || b[0] != 0x68) why = "start octet / minimum length";
-    else if (b[1] != n - 2 || b[1] < 4 || b[1] > 253) why = "length octet";
+    else if (b[1] != n - 2 || b[1] < 4 || b[1] > 254) why = "length octet";   /* 254: the queue accepts 250-octet ASDUs, outside the 249-octet domain of C03 */
     else if ((b[2] & 1) == 0) { int ns = (b[3] * 256 + (b[2] & 0xfe)) / 2; n_iframes_tx++;
         if ((b[4] & 1) != 0) why = "I-format control field";
         else if (hid >= 0 && hid < 4096) { if (next_ns[hid] >= 0 && ns != next_ns[hid]) why = "N(S) not previous + 1 mod 32768"; next_ns[hid] = (ns + 1) % 32768; } }
@@ -63,12 +64,47 @@ static void wire_check(int hid, const uint8_t* b, int n)
     if (why) wire_fail++;
 }
 static void on_write(SimSocket* s, const uint8_t* buf, int n) { static char h[600]; hexs(h, buf, n); logf_("tx h%d %s", hid_of_sock[s->id], h); n_tx++;
-    wire_check(hid_of_sock[s->id], buf, n); }
+    wire_check(hid_of_sock[s->id], buf, n);
+    if (slave && slave->serverMode == CS104_MODE_SINGLE_REDUNDANCY_GROUP && n > 6 && (buf[2] & 1) == 0) evq_seen(hid_of_sock[s->id], buf + 6, n - 6); }
 static int kwin_fail = 0; static char kwin_info[300];
+/* ---- C18 oracle: event grammar per connection OPENED (ACTIVATED DEACTIVATED)* ACTIVATED? CLOSED?, accounting ---- */
+static int life_fail = 0; static char life_info[400]; static int ev_state[4096];   /* 0 none, 1 opened/deactivated, 2 activated, 3 closed */
+static void life_event(int hid, int ev)
+{
+    if (hid < 0 || hid >= 4096) return;
+    int st = ev_state[hid]; const char* why = NULL;
+    if (ev == 0) { if (st != 0) why = "OPENED not first"; ev_state[hid] = 1; }
+    else if (ev == 1) { if (st == 0) why = "CLOSED before OPENED"; else if (st == 3) why = "CLOSED twice"; ev_state[hid] = 3; }
+    else if (ev == 2) { if (st != 1) why = (st == 2) ? "ACTIVATED twice without DEACTIVATED" : "ACTIVATED outside an open connection"; else ev_state[hid] = 2; }
+    else if (ev == 3) { if (st != 2) why = "DEACTIVATED without ACTIVATED"; else ev_state[hid] = 1; }
+    if (why) { if (!life_fail) snprintf(life_info, sizeof life_info, "connection h%d at ops-file offset %ld: event %d: %s", hid, (long) ftell(ops), ev, why); life_fail++; }
+}
+/* ---- C08 oracle: at most one STARTED connection per redundancy group; open connections within the limit ---- */
+static int group_fail = 0; static char group_info[400];
+/* ---- C06 oracle (single-group mode): events leave in enqueue order on a connection, none twice on one connection ---- */
+static int queue_fail = 0; static char queue_info[500];
+static uint8_t evq_b[8192][64]; static int evq_n[8192]; static int evq_cnt = 0; static int last_ev_idx[4096];
+static void evq_push(const uint8_t* b, int n) { if (evq_cnt < 8192) { int m = n > 64 ? 64 : n; memcpy(evq_b[evq_cnt], b, m); evq_n[evq_cnt++] = n; } }
+static uint8_t ev_sent[64][1024];
+static void evq_seen(int hid, const uint8_t* b, int n)
+{
+    if (hid < 0 || hid >= 64) return;
+    for (int k = evq_cnt - 1; k >= 0; k--) if (evq_n[k] == n && !memcmp(evq_b[k], b, n > 64 ? 64 : n)) {
+        const char* why = NULL;
+        { MasterConnection mc = NULL; for (int q = 0; q < CONFIG_CS104_MAX_CLIENT_CONNECTIONS; q++) { MasterConnection c2 = slave->masterConnections[q]; if (c2 && c2->isUsed && c2->socket && hid_of_sock[((SimSocket*) c2->socket)->id] == hid) mc = c2; }
+          if (mc && mc->highPrioQueue && mc->highPrioQueue->entryCounter > 0) { if (!order_fail) snprintf(order_info, sizeof order_info, "connection h%d at ops-file offset %ld: event #%d was transmitted while %d replies were still parked", hid, (long) ftell(ops), k, mc->highPrioQueue->entryCounter); order_fail++; } }
+        if (ev_sent[hid][k / 8] & (1 << (k % 8))) why = "was transmitted twice on the same connection";
+        else if (n_hid == 1 && k < last_ev_idx[hid]) why = "was transmitted after a later event although only one connection ever existed";
+        if (why) { if (!queue_fail) snprintf(queue_info, sizeof queue_info, "connection h%d at ops-file offset %ld: event #%d (enqueue position) %s (last transmitted: #%d)", hid, (long) ftell(ops), k, why, last_ev_idx[hid]); queue_fail++; }
+        ev_sent[hid][k / 8] |= (1 << (k % 8));
+        if (k > last_ev_idx[hid]) last_ev_idx[hid] = k;
+        return; }
+}
 static void on_event(void* p, IMasterConnection con, CS104_PeerConnectionEvent ev)
 {
     static const char* N[] = { "OPENED", "CLOSED", "ACTIVATED", "DEACTIVATED" };
     logf_("ev h%d %s", hid_of((MasterConnection) con->object), N[ev]); n_ev++; if (ev == 1) n_closed++;
+    life_event(hid_of((MasterConnection) con->object), (int) ev);
 }
 static bool on_request(void* p, const char* ip) { if (answers_pos < n_answers) return answers[answers_pos++]; return true; }
 static bool on_asdu(void* p, IMasterConnection con, CS101_ASDU asdu)
@@ -95,6 +131,13 @@ static void summary(void)
 {
     fprintf(impl, " | oc=%d", slave ? slave->openConnections : 0);
     if (!slave) return;
+    { int used = 0, started_total = 0; void* grp[128]; int gcnt[128]; int ng = 0;
+      for (int i = 0; i < CONFIG_CS104_MAX_CLIENT_CONNECTIONS; i++) { MasterConnection c = slave->masterConnections[i]; if (c && c->isUsed) { used++;
+          if (c->state == M_CON_STATE_STARTED) { started_total++; void* g = slave->serverMode == CS104_MODE_MULTIPLE_REDUNDANCY_GROUPS ? (void*) c->redundancyGroup : (void*) slave;
+              int k; for (k = 0; k < ng; k++) if (grp[k] == g) break; if (k == ng && ng < 128) { grp[ng] = g; gcnt[ng++] = 0; } if (k < 128) gcnt[k]++; } } }
+      if (used != slave->openConnections) { if (!life_fail) snprintf(life_info, sizeof life_info, "at ops-file offset %ld: getOpenConnections=%d but %d connection slots are in use", (long) ftell(ops), slave->openConnections, used); life_fail++; }
+      if (slave->serverMode != CS104_MODE_CONNECTION_IS_REDUNDANCY_GROUP) for (int k = 0; k < ng; k++) if (gcnt[k] > 1) { if (!group_fail) snprintf(group_info, sizeof group_info, "at ops-file offset %ld: %d connections of one redundancy group are started at the same time", (long) ftell(ops), gcnt[k]); group_fail++; }
+      if (slave->maxOpenConnections > 0 && used > slave->maxOpenConnections) { if (!group_fail) snprintf(group_info, sizeof group_info, "at ops-file offset %ld: %d connections open with a limit of %d", (long) ftell(ops), used, slave->maxOpenConnections); group_fail++; } }
     for (int i = 0; i < CONFIG_CS104_MAX_CLIENT_CONNECTIONS; i++) {
         MasterConnection c = slave->masterConnections[i];
         if (c && c->isUsed) {
@@ -124,7 +167,7 @@ static void flush_obs(void) { fprintf(impl, "%s", loglen ? logbuf : "-"); loglen
 static void op_new(int mode, int k, int w, int t0, int t1, int t2, int t3, int maxopen, int lowq, int highq, int rep, int scot, int sca)
 {
     if (slave) { CS104_Slave_stopThreadless(slave); CS104_Slave_destroy(slave); slave = NULL; }
-    sim_reset(); n_hid = 0; n_answers = answers_pos = 0;
+    sim_reset(); n_hid = 0; n_answers = answers_pos = 0; evq_cnt = 0;
     fprintf(ops, "s.new %d %d %d %d %d %d %d %d %d %d %d %d %d\n", mode, k, w, t0, t1, t2, t3, maxopen, lowq, highq, rep, scot, sca); fflush(ops);
     slave = CS104_Slave_create(lowq, highq);
     CS104_Slave_setServerMode(slave, (CS104_ServerMode) mode);
@@ -152,7 +195,7 @@ static int op_conn(const char* peer)
 {
     fprintf(ops, "s.conn %s\n", peer); fflush(ops);
     SimSocket* s = sim_incoming(peer); hid_of_sock[s->id] = n_hid; sock_of_hid[n_hid] = s;
-    if (n_hid < 4096) next_ns[n_hid] = 0;
+    if (n_hid < 4096) { next_ns[n_hid] = 0; ev_state[n_hid] = 0; last_ev_idx[n_hid] = -1; if (n_hid < 64) memset(ev_sent[n_hid], 0, sizeof ev_sent[0]); }
     fprintf(impl, "h%d\n", n_hid); return n_hid++;
 }
 static void op_rx(int h, const uint8_t* b, int n) { static char hx[1200]; hexs(hx, b, n); fprintf(ops, "s.rx %d %s\n", h, hx); fflush(ops); sim_feed(sock_of_hid[h], b, n); fprintf(impl, "ok\n"); }
@@ -167,6 +210,7 @@ static void op_enq(const uint8_t* b, int n)
     int hdr = 2 + al->sizeOfCOT + al->sizeOfCA;
     CS101_ASDU a = CS101_ASDU_create(al, false, CS101_COT_SPONTANEOUS, 0, 1, false, false);
     memcpy(a->asdu, b, hdr); CS101_ASDU_addPayload(a, (uint8_t*) b + hdr, n - hdr);
+    if (n <= 250) evq_push(b, n);
     CS104_Slave_enqueueASDU(slave, a); CS101_ASDU_destroy(a);
     flush_obs();
 }
@@ -200,9 +244,27 @@ static void deliver(int h, const uint8_t* f, int n)
     int cut = prng_range(1, n - 1); op_rx(h, f, cut); if (prng_below(2)) op_tick(prng_below(20)); op_rx(h, f + cut, n - cut);
 }
 
+static void deliver(int h, const uint8_t* f, int n);
+static void op_tick(int dt); static void op_enq(const uint8_t* b, int n); static MasterConnection conn_of_hid(int h);
+static int frame_s(uint8_t* b, int nr); static int frame_i(uint8_t* b, int ns, int nr, const uint8_t* asdu, int n); static int rnd_asdu(uint8_t* a, int hdr, int maxlen);
+/* scripted: fill the window with events, park many replies, queue more events, then acknowledge everything at once */
+static void burst(int h, int hdr, int k)
+{
+    uint8_t f[300], a[260];
+    MasterConnection c = conn_of_hid(h); if (!c || c->state != M_CON_STATE_STARTED) return;
+    for (int i = 0; i < k + 1; i++) { int n = rnd_asdu(a, hdr, 40); op_enq(a, n); op_tick(1); }
+    int bursts = prng_range(2, 6);
+    for (int i = 0; i < bursts; i++) { c = conn_of_hid(h); if (!c) return; int n = rnd_asdu(a, hdr, 20); op_rx(h, f, frame_i(f, c->receiveCount, (c->oldestSentASDU != -1) ? (c->sentASDUs[c->oldestSentASDU].seqNo + 32767) % 32768 : c->sendCount, a, n)); op_tick(1); }
+    for (int i = 0; i < 3; i++) { int n = rnd_asdu(a, hdr, 30); op_enq(a, n); }
+    c = conn_of_hid(h); if (!c) return;
+    op_rx(h, f, frame_s(f, c->sendCount)); for (int i = 0; i < 6; i++) op_tick(1);
+    c = conn_of_hid(h); if (!c) return;
+    op_rx(h, f, frame_s(f, c->sendCount)); for (int i = 0; i < 4; i++) op_tick(1);
+}
+
 static void episode(bool thorough)
 {
-    int mode = prng_below(3), k = prng_below(4) ? prng_range(1, 12) : prng_range(1, 3), w = prng_range(1, 8);
+    int mode = prng_below(3), k = prng_below(4) ? prng_range(1, 12) : prng_range(1, 3), w = prng_below(2) ? prng_range(1, 8) : prng_range(1, k / 2 > 1 ? k / 2 : 1);
     int t1 = prng_range(2, 6), t2 = prng_range(1, t1 - 1 > 1 ? t1 - 1 : 1), t3 = prng_range(2, 10);
     int lowq = prng_below(3) ? prng_range(1, 6) : prng_range(10, 40), highq = prng_range(1, 6), rep = prng_below(3) ? 0 : prng_range(1, 4);
     int scot = prng_range(1, 2), sca = prng_range(1, 2), hdr = 2 + scot + sca;
@@ -225,6 +287,7 @@ static void episode(bool thorough)
             hs[nh++] = op_conn(peer); op_tick(prng_below(5));
             if (prng_below(4) == 0) { MasterConnection nc = conn_of_hid(hs[nh - 1]); if (nc) op_preset(hs[nh - 1], prng_below(2) ? 32768 - prng_range(1, 20) : (int) prng_below(32768), prng_below(2) ? 32768 - prng_range(1, 20) : (int) prng_below(32768)); }
             if (prng_below(5)) { deliver(hs[nh - 1], f, frame_u(f, 0x07)); op_tick(1); } }
+        else if (r < 7 && h >= 0 && rep > 0) burst(h, hdr, k);
         else if (r < 25) op_tick(prng_below(4) ? prng_range(0, 50) : (prng_below(2) ? prng_range(100, 1500) : prng_range(900, 1100) * prng_range(1, 4)));
         else if (r < 45) { int n = rnd_asdu(a, hdr, 249); if (prng_below(8) == 0) n = prng_range(hdr, 252); op_enq(a, n); if (prng_below(2)) op_tick(prng_below(3)); }
         else if (h >= 0 && r < 62) {          /* I-frame from the client */
@@ -250,7 +313,7 @@ static void episode(bool thorough)
 int main(int argc, char** argv)
 {
     if (argc < 4) return 2;
-    ops = fopen(argv[1], "w"); impl = fopen(argv[2], "w");
+    ops = fopen(argv[1], "w"); impl = fopen(argv[2], "w"); setvbuf(impl, NULL, _IOLBF, 0);
     bool thorough = !strcmp(argv[3], "thorough");
     sim_write_hook = on_write;
     if (argc > 4) {     /* replay an operation file */
@@ -282,6 +345,9 @@ int main(int argc, char** argv)
     if (order_fail) printf("ORDER_FAIL %s\n", order_info);
     if (wire_fail) printf("WIRE_FAIL %s\n", wire_info);
     if (kwin_fail) printf("KWIN_FAIL %s\n", kwin_info);
-    printf("HISTO iframes_tx=%ld wire_violations=%d kwin_violations=%d replies_tracked=%ld order_violations=%d tx=%ld events=%ld asdu_callbacks=%ld closed=%ld iframes_rx=%ld sem_waits=%ld sem_max=%d sem_violations=%d deadlock=%d live_sem=%d live_sock=%d %s\n", n_iframes_tx, wire_fail, kwin_fail, n_replies_tracked, order_fail, n_tx, n_ev, n_asdu, n_closed, n_iframes_rx, sim_sem_waits, sim_sem_max_value, sim_sem_violations, sim_deadlock, sim_live_semaphores, sim_live_sockets, sim_sem_violation_where);
+    if (life_fail) printf("LIFE_FAIL %s\n", life_info);
+    if (group_fail) printf("GROUP_FAIL %s\n", group_info);
+    if (queue_fail) printf("QUEUE_FAIL %s\n", queue_info);
+    printf("HISTO life_violations=%d group_violations=%d queue_violations=%d iframes_tx=%ld wire_violations=%d kwin_violations=%d replies_tracked=%ld order_violations=%d tx=%ld events=%ld asdu_callbacks=%ld closed=%ld iframes_rx=%ld sem_waits=%ld sem_max=%d sem_violations=%d deadlock=%d live_sem=%d live_sock=%d %s\n", life_fail, group_fail, queue_fail, n_iframes_tx, wire_fail, kwin_fail, n_replies_tracked, order_fail, n_tx, n_ev, n_asdu, n_closed, n_iframes_rx, sim_sem_waits, sim_sem_max_value, sim_sem_violations, sim_deadlock, sim_live_semaphores, sim_live_sockets, sim_sem_violation_where);
     return 0;
 }
